@@ -209,6 +209,7 @@ mutual
     -- `SELF %ep` arrives elaborated: the harness writes the type of that entrypoint of the parameter as an argument
     | .prim "SELF" [t] an => (tyOfMich t).map fun t => .SELF (annotName "default" an) t
     | .prim "PACK" [] _ => some .PACK
+    | .prim "UNPACK" [t] _ => (tyOfMich t).map .UNPACK
     | .prim "TRANSFER_TOKENS" [] _ => some .TRANSFER_TOKENS
     | .prim "SET_DELEGATE" [] _ => some .SET_DELEGATE
     | .prim "EMIT" [t] an => (tyOfMich t).map fun t => .EMIT (annotName "" an) t
@@ -289,6 +290,7 @@ mutual
     | .CONTRACT t ep => .prim "CONTRACT" [tyToMich t] ["%" ++ uncodes ep]
     | .SELF ep t => .prim "SELF" [tyToMich t] ["%" ++ uncodes ep]
     | .PACK => .prim "PACK" [] []
+    | .UNPACK t => .prim "UNPACK" [tyToMich t] []
     | .TRANSFER_TOKENS => .prim "TRANSFER_TOKENS" [] [] | .SET_DELEGATE => .prim "SET_DELEGATE" [] []
     | .EMIT tag t => .prim "EMIT" [tyToMich t] (if tag.isEmpty then [] else ["%" ++ uncodes tag])
 end
